@@ -115,6 +115,17 @@ const std::vector<std::string>& curated_fens()
         "6k1/5ppp/8/8/8/8/8/R3K3 w Q - 99 80",
         "6k1/5ppp/8/8/8/8/8/R3K3 w Q - 98 80",
         "r1bqkb1r/pppp1ppp/2n2n2/4p2Q/2B1P3/8/PPPP1PPP/RNB1K1NR w KQkq - 4 4",
+        // pawns that can capture an unmoved corner rook while promoting
+        "r3k2r/1P4P1/8/8/8/8/1p4p1/R3K2R w KQkq - 0 1",
+        "r3k2r/1P4P1/8/8/8/8/1p4p1/R3K2R b KQkq - 0 1",
+        "r3k2r/1P4P1/2n2n2/8/8/2N2N2/1p4p1/R3K2R w KQkq - 4 20",
+        // castling is clearly the best move (it wins material or mates)
+        "8/3k4/8/8/8/8/1r6/R3K3 w Q - 0 1",
+        "r3k3/1R6/8/8/8/8/3K4/8 b q - 0 1",
+        "8/8/8/8/8/8/6rk/4K2R w K - 0 1",
+        "4k2r/6RK/8/8/8/8/8/8 b k - 0 1",
+        "5k2/8/8/8/8/8/1r1P1PPP/R3K2R w KQ - 0 1",
+        "r3k2r/1R1p1ppp/8/8/8/8/8/5K2 b kq - 0 1",
     });
     return v;
 }
@@ -219,6 +230,332 @@ std::string gen_heavy_fen(Rng& r)
     return "k7/8/8/8/7K/8/2QQQ3/1QQQQQQ1 w - - 0 1";
 }
 
+// one random position of a specialised endgame class (material signature), either colour strong, either side to move
+std::string gen_endgame_class_fen(Rng& r)
+{
+    static const char* sig[][2] = {
+        {"P", ""},   {"PP", ""},  {"PPP", ""}, {"Q", ""},   {"R", ""},   {"QR", ""},  {"BB", ""},  {"NB", ""},  {"NN", ""},  {"NN", "P"},
+        {"BP", ""},  {"BPP", ""}, {"BP", "B"}, {"BPP", "B"}, {"BPPP", "B"}, {"Q", "P"},  {"Q", "R"},  {"Q", "RP"}, {"Q", "RPP"}, {"RB", "R"},
+        {"RN", "R"}, {"R", "B"},  {"R", "N"},  {"R", "P"},  {"BN", "N"}, {"BB", "N"}, {"NN", "B"}, {"BN", "B"}, {"RP", "R"}, {"QP", "Q"},
+    };
+    const int nsig = int(sizeof sig / sizeof sig[0]);
+    for (int attempt = 0; attempt < 300; ++attempt)
+    {
+        ref::Board b;
+        std::memset(b.sq, 0, sizeof b.sq);
+        b.castling = 0;
+        b.ep = -1;
+        b.side = int(r.below(2));
+        b.halfmove = int(r.below(40));
+        b.fullmove = int(r.range(30, 120));
+        int strong = int(r.below(2));
+        auto& s = sig[r.below(uint64_t(nsig))];
+        bool ok = true;
+        auto place = [&](int color, char c) {
+            int kind = c == 'P' ? ref::KIND_P : c == 'N' ? ref::KIND_N : c == 'B' ? ref::KIND_B : c == 'R' ? ref::KIND_R : c == 'Q' ? ref::KIND_Q : ref::KIND_K;
+            for (int t = 0; t < 200; ++t)
+            {
+                int q = int(r.below(64));
+                if (b.sq[q]) continue;
+                if (kind == ref::KIND_P && (ref::rank_of(q) == 0 || ref::rank_of(q) == 7)) continue;
+                b.sq[q] = ref::mk(color, kind);
+                return;
+            }
+            ok = false;
+        };
+        place(strong, 'K');
+        place(1 - strong, 'K');
+        for (const char* p = s[0]; *p; ++p) place(strong, *p);
+        for (const char* p = s[1]; *p; ++p) place(1 - strong, *p);
+        if (!ok) continue;
+        std::string fen = b.fen();
+        if (!fen_is_sane(fen)) continue;
+        if (b.legal().empty()) continue;
+        return fen;
+    }
+    return "8/3k4/2b5/8/8/4P3/4B3/K7 b - - 0 1";
+}
+
+// both sides own many heavy pieces attacking each other: quiescence search explodes, iteration 1 takes very long
+std::string gen_melee_fen(Rng& r)
+{
+    for (int attempt = 0; attempt < 300; ++attempt)
+    {
+        ref::Board b;
+        std::memset(b.sq, 0, sizeof b.sq);
+        b.castling = 0;
+        b.ep = -1;
+        b.side = int(r.below(2));
+        b.halfmove = 0;
+        b.fullmove = int(r.range(30, 80));
+        auto place = [&](int8_t pc) {
+            for (int t = 0; t < 100; ++t)
+            {
+                int q = int(r.below(64));
+                if (!b.sq[q]) { b.sq[q] = pc; return; }
+            }
+        };
+        place(ref::WK);
+        place(ref::BK);
+        for (int color = 0; color < 2; ++color)
+        {
+            int q = int(r.range(3, 8)), rk = int(r.range(1, 3)), bi = int(r.range(0, 2)), kn = int(r.range(1, 4));
+            for (int i = 0; i < q; ++i) place(ref::mk(color, ref::KIND_Q));
+            for (int i = 0; i < rk; ++i) place(ref::mk(color, ref::KIND_R));
+            for (int i = 0; i < bi; ++i) place(ref::mk(color, ref::KIND_B));
+            for (int i = 0; i < kn; ++i) place(ref::mk(color, ref::KIND_N));
+        }
+        std::string fen = b.fen();
+        if (!fen_is_sane(fen)) continue;
+        if (b.in_check(b.side)) continue;
+        if (b.legal().size() < 20) continue;
+        return fen;
+    }
+    return "q2k2q1/2nqn2b/1n1P1n1b/2rnr2Q/1NQ1QN1Q/3Q3B/2RQR2B/Q2K2Q1 w - - 0 1";
+}
+
+// Check-evasion boundary families.  Each returns a position (side to move is the future *checker*) together with the
+// move that gives the check, so that the position after it is reached by a real move (a just-made double push).
+//  kind 0: the only way to parry a slider check is a two-square pawn push that interposes
+//  kind 1: a double pawn push gives check and capturing that pawn en passant is an (often the only) evasion
+PosSpec gen_evasion_family(Rng& r)
+{
+    PosSpec p;
+    for (int attempt = 0; attempt < 400; ++attempt)
+    {
+        ref::Board b;
+        std::memset(b.sq, 0, sizeof b.sq);
+        b.castling = 0;
+        b.ep = -1;
+        b.halfmove = int(r.below(10));
+        b.fullmove = int(r.range(20, 60));
+        int kind = int(r.below(2));
+        bool flip_colors = r.chance(0.5);
+        bool mirror = r.chance(0.5);
+        ref::RMove checking{};
+        if (kind == 0)
+        {
+            // defender (white here) king h1, own men on g1/h2, pawn on e2 or c2; attacker bishop/queen arrives on the long diagonal
+            b.sq[ref::sq_of(7, 0)] = ref::WK;
+            b.sq[ref::sq_of(6, 0)] = r.chance(0.5) ? ref::WB : ref::WN;
+            b.sq[ref::sq_of(7, 1)] = ref::WP;
+            int pf = r.chance(0.7) ? 4 : 2;  // e2-e4 lands on e4 (a8-h1 diagonal); c2-c4 does not: control case
+            b.sq[ref::sq_of(pf, 1)] = ref::WP;
+            // attacker piece starts off the diagonal and moves onto it (b7 / a8 / c6)
+            int8_t att = r.chance(0.5) ? ref::BB : ref::BQ;
+            static const int from_sq[][2] = {{2, 7}, {0, 5}, {1, 5}};  // c8, a6, b6
+            static const int to_sq[][2] = {{1, 6}, {1, 6}, {2, 5}};    // b7, b7, c6
+            int w = int(r.below(3));
+            if (att == ref::BQ && w == 2) w = 0;
+            b.sq[ref::sq_of(from_sq[w][0], from_sq[w][1])] = att;
+            checking.from = int8_t(ref::sq_of(from_sq[w][0], from_sq[w][1]));
+            checking.to = int8_t(ref::sq_of(to_sq[w][0], to_sq[w][1]));
+            // attacker king somewhere safe
+            b.sq[ref::sq_of(int(r.range(4, 6)), 7)] = ref::BK;
+            b.side = 1;
+            // a few random extra men far from the diagonal
+            int extra = int(r.below(3));
+            for (int i = 0; i < extra; ++i)
+            {
+                int q = int(r.below(64));
+                int f = ref::file_of(q), rk = ref::rank_of(q);
+                if (b.sq[q] || f + rk == 7 || rk == 0 || rk == 7) continue;
+                b.sq[q] = r.chance(0.5) ? ref::WP : ref::BP;
+            }
+        }
+        else if (r.chance(0.5))
+        {
+            // boxed variant: defender king on the edge, every flight covered, the only evasion is the en-passant capture
+            // (attacker: Kc5, bishop on the f1-a6 diagonal, pawn b2; defender: Ka5, pawn a4)
+            b.sq[ref::sq_of(0, 4)] = ref::BK;
+            b.sq[ref::sq_of(0, 3)] = ref::BP;
+            b.sq[ref::sq_of(2, 4)] = ref::WK;
+            static const int bs[][2] = {{5, 0}, {4, 1}, {3, 2}};
+            int bi = int(r.below(3));
+            b.sq[ref::sq_of(bs[bi][0], bs[bi][1])] = r.chance(0.8) ? ref::WB : ref::WQ;
+            b.sq[ref::sq_of(1, 1)] = ref::WP;
+            checking.from = int8_t(ref::sq_of(1, 1));
+            checking.to = int8_t(ref::sq_of(1, 3));
+            // harmless extras for the defender
+            if (r.chance(0.5)) b.sq[ref::sq_of(7, 7)] = ref::BR;
+            if (r.chance(0.5)) b.sq[ref::sq_of(int(r.range(4, 7)), 6)] = ref::BP;
+            b.side = 0;
+        }
+        else
+        {
+            // attacker (white) pawn on its start rank double-pushes next to an enemy pawn and gives check to a king
+            int f = int(r.range(1, 6));
+            int side_f = r.chance(0.5) ? f - 1 : f + 1;
+            b.sq[ref::sq_of(f, 1)] = ref::WP;          // will go to rank 4 (index 3)
+            b.sq[ref::sq_of(side_f, 3)] = ref::BP;     // can capture en passant on (f, rank 3 idx 2)
+            // the defender's king stands diagonally in front of the landing square: checked by the pawn
+            int kf = r.chance(0.5) ? f - 1 : f + 1;
+            if (kf == side_f) kf = 2 * f - side_f;
+            if (kf < 0 || kf > 7) continue;
+            b.sq[ref::sq_of(kf, 4)] = ref::BK;
+            checking.from = int8_t(ref::sq_of(f, 1));
+            checking.to = int8_t(ref::sq_of(f, 3));
+            // attacker king + pieces that take flight squares away
+            b.sq[ref::sq_of(int(r.below(8)), 0)] = ref::WK;
+            int extra = int(r.range(2, 5));
+            for (int i = 0; i < extra; ++i)
+            {
+                int q = int(r.below(64));
+                if (b.sq[q]) continue;
+                static const int8_t ws[] = {ref::WQ, ref::WR, ref::WB, ref::WN, ref::WR};
+                b.sq[q] = ws[r.below(5)];
+            }
+            b.side = 0;
+        }
+        if (mirror)
+        {
+            ref::Board m = b;
+            for (int q = 0; q < 64; ++q) m.sq[q] = b.sq[ref::sq_of(7 - ref::file_of(q), ref::rank_of(q))];
+            b = m;
+            checking.from = int8_t(ref::sq_of(7 - ref::file_of(checking.from), ref::rank_of(checking.from)));
+            checking.to = int8_t(ref::sq_of(7 - ref::file_of(checking.to), ref::rank_of(checking.to)));
+        }
+        if (flip_colors)
+        {
+            ref::Board m = b;
+            for (int q = 0; q < 64; ++q)
+            {
+                int8_t pc = b.sq[ref::sq_of(ref::file_of(q), 7 - ref::rank_of(q))];
+                m.sq[q] = pc == 0 ? 0 : int8_t(pc >= ref::BP ? pc - 6 : pc + 6);
+            }
+            m.side = 1 - b.side;
+            b = m;
+            checking.from = int8_t(ref::sq_of(ref::file_of(checking.from), 7 - ref::rank_of(checking.from)));
+            checking.to = int8_t(ref::sq_of(ref::file_of(checking.to), 7 - ref::rank_of(checking.to)));
+        }
+        std::string fen = b.fen();
+        if (!fen_is_sane(fen)) continue;
+        ref::RMove chk;
+        ref::Board t = b;
+        if (!t.legal_uci(checking.uci(), chk)) continue;
+        t.make(chk);
+        if (!t.in_check(t.side)) continue;
+        p.start_fen = fen;
+        p.game = ref::Game(b);
+        // half of the time hand out the position before the checking move (the engine has to find / judge it),
+        // otherwise the position after it (the engine is the one in check)
+        if (r.chance(0.5) && !t.legal().empty()) p.game.push(chk);
+        if (p.game.cur.legal().empty()) continue;
+        return p;
+    }
+    p.start_fen = "2b3k1/8/8/8/8/8/4P2P/6BK b - - 0 1";
+    p.game = ref::Game(ref::Board(p.start_fen));
+    return p;
+}
+
+// >= 64 legal moves for the side to move, no mate within two moves, lone enemy king: wide nodes with cheap subtrees
+std::string gen_wide_fen(Rng& r)
+{
+    for (int attempt = 0; attempt < 400; ++attempt)
+    {
+        ref::Board b;
+        std::memset(b.sq, 0, sizeof b.sq);
+        b.castling = 0;
+        b.ep = -1;
+        b.halfmove = 0;
+        b.fullmove = 60;
+        int strong = int(r.below(2));
+        b.side = strong;
+        auto place = [&](int8_t pc) {
+            for (int t = 0; t < 100; ++t)
+            {
+                int q = int(r.below(64));
+                if (!b.sq[q]) { b.sq[q] = pc; return; }
+            }
+        };
+        place(ref::mk(strong, ref::KIND_K));
+        place(ref::mk(1 - strong, ref::KIND_K));
+        int kn = int(r.range(3, 6)), bi = int(r.range(3, 6));
+        if (kn - 2 + bi - 2 > 8) bi = 10 - kn;
+        for (int i = 0; i < kn; ++i) place(ref::mk(strong, ref::KIND_N));
+        for (int i = 0; i < bi; ++i) place(ref::mk(strong, ref::KIND_B));
+        if (r.chance(0.5)) place(ref::mk(strong, ref::KIND_R));
+        std::string fen = b.fen();
+        if (!fen_is_sane(fen)) continue;
+        if (b.legal().size() < 64) continue;
+        ref::MateSolver ms(300000);
+        if (ms.attacker(b, 2) != 0) continue;
+        return fen;
+    }
+    return "BBBBBBBB/BB6/8/8/8/8/5k2/K7 w - - 0 1";
+}
+
+// king and minor piece against king and pawn(s) huddled in a corner: zugzwang and mating-net motifs
+std::string gen_corner_zugzwang_fen(Rng& r)
+{
+    for (int attempt = 0; attempt < 300; ++attempt)
+    {
+        ref::Board b;
+        std::memset(b.sq, 0, sizeof b.sq);
+        b.castling = 0;
+        b.ep = -1;
+        b.halfmove = int(r.below(10));
+        b.fullmove = int(r.range(40, 90));
+        b.side = int(r.below(2));
+        // weak king near a1, its pawn(s) on the a/b files, strong king and minor close by
+        auto near = [&](int f0, int r0, int d) {
+            for (int t = 0; t < 50; ++t)
+            {
+                int f = f0 + int(r.range(-d, d)), rk = r0 + int(r.range(-d, d));
+                if (f < 0 || f > 7 || rk < 0 || rk > 7) continue;
+                if (!b.sq[ref::sq_of(f, rk)]) return ref::sq_of(f, rk);
+            }
+            return -1;
+        };
+        int wk = near(0, 0, 1);
+        if (wk < 0) continue;
+        b.sq[wk] = ref::BK;
+        int np = int(r.range(1, 2));
+        bool ok = true;
+        for (int i = 0; i < np; ++i)
+        {
+            int q = ref::sq_of(int(r.below(2)), int(r.range(1, 4)));
+            if (b.sq[q]) { ok = false; break; }
+            b.sq[q] = ref::BP;
+        }
+        if (!ok) continue;
+        int sk = near(2, 1, 1);
+        if (sk < 0) continue;
+        b.sq[sk] = ref::WK;
+        int mn = near(3, 2, 2);
+        if (mn < 0) continue;
+        b.sq[mn] = r.chance(0.7) ? ref::WN : ref::WB;
+        if (r.chance(0.2))
+        {
+            int q = near(4, 3, 3);
+            if (q >= 0 && ref::rank_of(q) != 0 && ref::rank_of(q) != 7) b.sq[q] = ref::WP;
+        }
+        // random symmetry
+        if (r.chance(0.5))
+        {
+            ref::Board m = b;
+            for (int q = 0; q < 64; ++q) m.sq[q] = b.sq[ref::sq_of(7 - ref::file_of(q), ref::rank_of(q))];
+            b = m;
+        }
+        if (r.chance(0.5))
+        {
+            ref::Board m = b;
+            for (int q = 0; q < 64; ++q)
+            {
+                int8_t pc = b.sq[ref::sq_of(ref::file_of(q), 7 - ref::rank_of(q))];
+                m.sq[q] = pc == 0 ? 0 : int8_t(pc >= ref::BP ? pc - 6 : pc + 6);
+            }
+            m.side = 1 - b.side;
+            b = m;
+        }
+        std::string fen = b.fen();
+        if (!fen_is_sane(fen)) continue;
+        if (b.legal().empty()) continue;
+        return fen;
+    }
+    return "8/8/8/8/8/1p6/3K1N2/1k6 w - - 0 1";
+}
+
 void playout(ref::Game& g, Rng& r, int plies, double bias, bool avoid_terminal)
 {
     for (int i = 0; i < plies; ++i)
@@ -266,6 +603,7 @@ PosSpec gen_position(Rng& r, int max_plies, int source_mix)
 {
     PosSpec p;
     // source_mix: 0 = general, 1 = sparse-heavy (endgames / mates), 2 = startpos games only
+    if (source_mix != 2 && r.chance(0.06)) return gen_evasion_family(r);
     uint64_t pick = r.below(100);
     ref::Board start;
     if (source_mix == 2 || (source_mix == 0 && pick < 45))
@@ -280,7 +618,10 @@ PosSpec gen_position(Rng& r, int max_plies, int source_mix)
     }
     else
     {
-        p.start_fen = gen_sparse_fen(r, 1, source_mix == 1 ? 5 : 8, true);
+        uint64_t k = r.below(10);
+        if (k < 2 && source_mix == 0) p.start_fen = gen_melee_fen(r);
+        else if (k < 4) p.start_fen = gen_endgame_class_fen(r);
+        else p.start_fen = gen_sparse_fen(r, 1, source_mix == 1 ? 5 : 8, true);
         start = ref::Board(p.start_fen);
     }
     p.game = ref::Game(start);
